@@ -378,7 +378,7 @@ def shrink_program(src, kind, transports, budget_s):
   return "\n".join("\n".join(b) for b in bl)
 
 
-def e2e(res, r, n_programs, n_workers, budget_s, corpus_programs, corpus_chains=(), n_chains=0):
+def e2e(res, r, n_programs, n_workers, budget_s, corpus_programs, corpus_chains=(), n_chains=0, n_bounded=0):
   import c06_e2e as E
   jobs = [{"id": "corpus%d" % i, "src": s} for i, s in enumerate(corpus_programs)]
   # module chains (u <- a <- b with alias imports, nested classes, decoys, packages) run before the random programs:
@@ -389,6 +389,11 @@ def e2e(res, r, n_programs, n_workers, budget_s, corpus_programs, corpus_chains=
   for i in range(n_chains):
     ch = E.gen_chain(rc)
     jobs.append({"id": "chain%d" % i, "kind": "chain", "chain": ch, "src": ch["modules"][-2][2]})
+  # programs with bounded / constrained TypeVars whose generic classes are used bare in annotations (own stream; part of
+  # the floor like the chains)
+  rb = common.rng(res.seed, "c06-bound-e2e")
+  for i in range(n_bounded):
+    jobs.append({"id": "bnd%d" % i, "kind": "bounded", "src": E.gen_bounded_program(rb)})
   n_first = len(jobs)
   for i in range(n_programs):
     jobs.append({"id": "p%d" % i, "src": E.gen_program(r)})
@@ -467,9 +472,14 @@ def e2e(res, r, n_programs, n_workers, budget_s, corpus_programs, corpus_chains=
   done = len(results)
   # the budget is wall time (the machine is shared): require a floor, record the number reached
   chains_done = [j for j in results if by_id[j].get("kind") == "chain"]
-  res.obligation("e2e:module-chains-analysed", len(chains_done) == n_first - len(corpus_programs) and
+  bounded_done = [j for j in results if by_id[j].get("kind") == "bounded" and results[j].get("status") != "skip"]
+  res.obligation("e2e:bounded-typevar-programs-analysed", len(bounded_done) == n_bounded,
+                 "%d of %d programs with bare references to bounded generic classes finished" % (len(bounded_done), n_bounded))
+  res.extra["e2e_bounded_typevar_programs"] = len(bounded_done)
+  n_chain_jobs = n_first - len(corpus_programs) - n_bounded
+  res.obligation("e2e:module-chains-analysed", len(chains_done) == n_chain_jobs and
                  all(results[j].get("status") != "skip" for j in chains_done),
-                 "%d of %d module chains finished (skips count as unfinished)" % (len(chains_done), n_first - len(corpus_programs)))
+                 "%d of %d module chains finished (skips count as unfinished)" % (len(chains_done), n_chain_jobs))
   res.extra["e2e_module_chains"] = len(chains_done)
   res.extra["e2e_module_chain_layouts"] = {}
   for j in chains_done:
@@ -569,12 +579,14 @@ def run(res):
   class_table_obligation(res)
   n_wild, n_dialect = (2500, 2500) if thorough else (300, 300)
   correspondence(res, r, n_wild, n_dialect, corpus_types)
+  import c06_bound
+  c06_bound.leg(res, common.rng(res.seed, "c06-bound"), 30 if thorough else 3, 36, report)
   import c06_decl
   n_batches = 40 if thorough else 3
   c06_decl.leg(res, common.rng(res.seed, "c06-decl"), n_batches, 3, report)
   n_prog, budget = (4000, 720) if thorough else (400, 50)
   e2e(res, common.rng(res.seed, "c06-e2e"), n_prog, 4, budget, corpus_programs, load_corpus_chains(),
-      n_chains=200 if thorough else 6)
+      n_chains=200 if thorough else 6, n_bounded=40 if thorough else 3)
   if thorough:
     ok, out = common_coqchk("C06")
     res.obligation("coqchk", ok, out[-1500:])
@@ -597,6 +609,9 @@ def replay(res, path):
     import c06_decl
     _, _, bad = c06_decl.replay(rep, os.path.join(WORK, "replay"))
     return 1 if bad else 0
+  if rep.get("kind") == "bound":
+    import c06_bound
+    return 1 if c06_bound.replay(rep, os.path.join(WORK, "replay")) else 0
   if rep.get("kind") == "types":
     loaded, pre, post, errs = L.round_trip(rep["stub"], os.path.join(WORK, "replay"))
     bad = False
